@@ -65,6 +65,8 @@ type C04UCase struct {
 	Suppress bool  `json:"suppress,omitempty"`
 	NWatch int   `json:"n_watch"`
 	Ops    []UOp `json:"ops"`
+	// EnableAt k>0: EnableVerification is called before op k-1 (only with Delay)
+	EnableAt int `json:"enable_at,omitempty"`
 }
 
 func genC04U(t *rapid.T) C04UCase {
@@ -85,6 +87,9 @@ func genC04U(t *rapid.T) C04UCase {
 			op.Limit = &v
 		}
 		c.Ops = append(c.Ops, op)
+	}
+	if c.Delay && rapid.IntRange(0, 2).Draw(t, "enable") != 0 {
+		c.EnableAt = rapid.IntRange(1, n).Draw(t, "enable_at")
 	}
 	return c
 }
@@ -134,7 +139,8 @@ func runC04U(c C04UCase) (verdict vrt.Verdict) {
 			verdict = vrt.KeyedViolationf("panic", "panic / synctest failure: %v", p)
 		}
 	}()
-	unstackSeen, validSeen, invalidSeen := 0, 0, 0
+	unstackSeen, validSeen, invalidSeen, unstackAfterEnable := 0, 0, 0, 0
+	enabled := false
 	synctest.Test(curT, func(st *testing.T) {
 		ctx, cancel := context.WithCancel(context.Background())
 		defer func() { cancel(); synctest.Wait() }()
@@ -175,13 +181,35 @@ func runC04U(c C04UCase) (verdict vrt.Verdict) {
 		slots := make([]*UOp, c.NWatch)
 		curView, curTok := d.ViewVersion()
 		curSerial := serialOf(curTok)
+		delayInForce := c.Delay
 		for i := range c.Ops {
 			op := &c.Ops[i]
 			if op.Src < 0 || op.Src >= c.NWatch {
 				fail("bad op")
 				return
 			}
-			step := fmt.Sprintf("op %d (src %d n=%d setI=%v limit=%v block=%v)", i, op.Src, op.N, op.SetI, op.Limit, op.Block)
+			if c.Delay && c.EnableAt == i+1 {
+				_, _, enErr := d.EnableVerification(ctx)
+				synctest.Wait()
+				if curView.Limit < 0 {
+					if !errors.Is(enErr, ErrInvalid) {
+						fail("before op %d: EnableVerification over an installed config that does not verify returned %v", i, enErr)
+						return
+					}
+				} else {
+					if enErr != nil {
+						fail("before op %d: EnableVerification over a valid installed config returned %v", i, enErr)
+						return
+					}
+					delayInForce = false
+					enabled = true
+				}
+				if v, tok := d.ViewVersion(); v != curView || serialOf(tok) != curSerial {
+					fail("before op %d: EnableVerification changed the view or the serial", i)
+					return
+				}
+			}
+			step := fmt.Sprintf("op %d (src %d n=%d setI=%v limit=%v block=%v; delay in force=%v, suppress option=%v)", i, op.Src, op.N, op.SetI, op.Limit, op.Block, delayInForce, c.Suppress)
 			newSlots := append([]*UOp{}, slots...)
 			newSlots[op.Src] = op
 			// model: class of the new stack
@@ -233,12 +261,15 @@ func runC04U(c C04UCase) (verdict vrt.Verdict) {
 			uVerifyMu.Lock()
 			verifs := append([]*UCfg{}, uVerifyLog[vlBefore:]...)
 			uVerifyMu.Unlock()
-			suppressed := c.Delay && c.Suppress
+			suppressed := delayInForce && c.Suppress
 			// under delayed verification nothing is verified: invalid values are installed
-			rejectInvalid := limit < 0 && !c.Delay
+			rejectInvalid := limit < 0 && !delayInForce
 			switch {
 			case anyI:
 				unstackSeen++
+				if enabled {
+					unstackAfterEnable++
+				}
 				if v != curView || serialOf(tok) != curSerial {
 					fail("%s: an update that cannot be stacked changed the view or the serial (serial %d -> %d)", step, curSerial, serialOf(tok))
 					return
@@ -299,7 +330,7 @@ func runC04U(c C04UCase) (verdict vrt.Verdict) {
 					fail("%s: installed config is %+v, want N=%d Limit=%d I=default", step, *v, nval, limit)
 					return
 				}
-				if c.Delay {
+				if delayInForce {
 					if len(verifs) != 0 {
 						fail("%s: Verify was called although verification is delayed", step)
 						return
@@ -324,7 +355,7 @@ func runC04U(c C04UCase) (verdict vrt.Verdict) {
 	if msg != "" {
 		return vrt.KeyedViolationf("unstackable", "%s", msg)
 	}
-	return vrt.OK(unstackSeen >= 1 && validSeen >= 1, fmt.Sprintf("unstackable=%d", min(unstackSeen, 3)), fmt.Sprintf("invalid=%d", min(invalidSeen, 3)), fmt.Sprintf("valid=%d", min(validSeen, 3)))
+	return vrt.OK(unstackSeen >= 1 && validSeen >= 1, fmt.Sprintf("unstackable=%d", min(unstackSeen, 3)), fmt.Sprintf("invalid=%d", min(invalidSeen, 3)), fmt.Sprintf("valid=%d", min(validSeen, 3)), fmt.Sprintf("unstackable-after-enable=%d", min(unstackAfterEnable, 2)))
 }
 
 func TestC07Unstackable(t *testing.T) {
@@ -343,8 +374,8 @@ func TestC04Unstackable(t *testing.T) {
 	curT = t
 	vrt.Check(t, vrt.Prop[C04UCase]{
 		ID: "C04", Name: "unstackable",
-		Rule: "histories of 1..12 reports from 1..2 watchers over a config with an interface-typed field whose default is non-nil: a source that sets that field yields a value that cannot be stacked (class confirmed per step by a fresh Config over the same values), mixed with valid and invalid (negative Limit) values, blocking and not; " +
-			"oracle: an unstackable update leaves view and serial unchanged, never reaches Verify, makes a blocking report return the stacking error and calls OnWatchedError exactly once with (error, current config, nil); invalid updates get (verifier's error, current, rejected); valid ones are installed with serial+1 and announced once; " +
+		Rule: "histories of 1..12 reports from 1..2 watchers over a config with an interface-typed field whose default is non-nil: a source that sets that field yields a value that cannot be stacked (class confirmed per step by a fresh Config over the same values), mixed with valid and invalid (negative Limit) values, blocking and not, under Skip / Delay / suppress options, with (under Delay, 2 of 3 cases) one EnableVerification call before a generated op; " +
+			"oracle: an unstackable update leaves view and serial unchanged, never reaches Verify, makes a blocking report return the stacking error and calls OnWatchedError exactly once with (error, current config, nil); invalid updates get (verifier's error, current, rejected); valid ones are installed with serial+1 and announced once; global callbacks are withheld exactly while the delay is in force (until the first successful enable) and the suppress option is set; " +
 			"non-trivial = at least one unstackable and one installed update; distinct = distinct case JSON",
 		Assumptions: []string{"a non-nil interface default makes Pointerify devirtualise the field to a method-less reflect-built type, so any value a contract-abiding source sets there fails the interface check in overlay: this is the only contract-abiding stacking failure found"},
 		Gen:         genC04U, Run: runC04U,
